@@ -347,6 +347,8 @@ def shrink(ctx, exe, root, ops, bad_codes):
 
 
 def run(ctx):
+    from checks import isolate
+    isolate.enter(ctx)
     bindir = core.cargo_build("h_ctx")
     ok, problems = core.coq_audit(ctx, PROPS, THEOREMS)
     exe = C15.exe_path(bindir)
@@ -409,6 +411,8 @@ def run(ctx):
 
 
 def replay(ctx, path):
+    from checks import isolate
+    isolate.enter(ctx)
     obj = json.load(open(path))
     fi = obj.get("failing_input") or obj.get("first_disagreeing_input")
     if not fi or "ops" not in fi:
